@@ -220,7 +220,7 @@ def run_shard(ctx):
             # a condition that repeats an outcome: P(A, B | A) = P(B | A) - unusual, but a probability like any other
             ast[3] = [list(x) if isinstance(x, list) else x for x in ast[3]] + [rng.choice(ast[2])]
             kernel.count("C13:condition-repeats-an-outcome")
-        if i % 6 == 1 and ast[2]:
+        if i % 7 == 1 and ast[2]:
             # two outcomes of one NAME in different worlds (P(Y @ +X, Y @ -X, Z)): different random variables, a joint
             # like any other - the helpers must keep both
             c = rng.choice(ast[2])
